@@ -98,6 +98,16 @@ Fixpoint diff_from (c : cfg) (univ : list addr) (s : state) (items : list item) 
 
 Definition diff (t : trace) : N := diff_from (t_cfg t) (t_univ t) (init (t_start t)) (t_items t) 0%N.
 
+(* Persistence: the passage of time alone (an Advance) changes none of the flavour's extra getters
+   (list flags, voting units / delegation, vault asset balances, RWA freezes / pause).  Skipped when there
+   is no previous observation of them (first call of a trace, or a flavour without extras). *)
+Definition is_nilZ (l : list Z) : bool := match l with [] => true | _ => false end.
+Definition advance_keeps_extras (prev cur : obs) (cl : call) (out : outcome) : bool :=
+  match cl, out with
+  | Advance _, Ok _ => is_nilZ (o_extra prev) || list_eqb Z.eqb (o_extra cur) (o_extra prev)
+  | _, _ => true
+  end.
+
 (* the trace the model itself produces *)
 Fixpoint model_items (c : cfg) (univ : list addr) (s : state) (cs : list call) : list item :=
   match cs with
